@@ -221,6 +221,10 @@ def modelStep (d : DState) (op : List String) (obs : List (List String)) : DStat
       | _ => none
     ({ d with xend := lines }, [])
   | ["c", "end"] => (d, d.xend)
+  | ["x", _, "T"] =>
+    -- teardown starts: the test drops its chain objects; which call is a scope's last one is not known any more
+    ({ d with st := { d.st with e := none, a := none, m := { d.st.m with last := [] } } }, [])
+  | ["c", _, "T"] => (d, [])
   | "x" :: _ :: "P" :: _ => (d, [])
   | "c" :: _ :: "P" :: _ => (d, [])
   | "x" :: idx :: words =>
@@ -319,6 +323,7 @@ def orDefaultFields : List String :=
 
 def shadowStep (sh : Shadow) (i : Nat) (words : List String) (obs : List (List String)) : Shadow :=
   match words with
+  | ["T"] => { sh with act := none, last := [] }
   | ["M0"] => { sh with cur := some "-" }
   | ["M", s] => { sh with cur := some s }
   | ["S", "actualCall", _] =>
